@@ -5,5 +5,23 @@ t = subprocess.run(["python3", "/verif/lib/seedtable.py"], capture_output=True, 
 p = "/verif/DESIGN.md"
 s = open(p).read()
 s = re.sub(r"<!-- SEEDTABLE:BEGIN -->.*?<!-- SEEDTABLE:END -->", "<!-- SEEDTABLE:BEGIN -->\n" + t + "<!-- SEEDTABLE:END -->", s, flags=re.S)
+import json
+kf = json.load(open("/verif/known_findings.json"))["findings"]
+bycommit = {}
+for f in kf:
+    if f.get("kind") == "fixed" and f.get("commit"):
+        bycommit.setdefault(f["commit"][:7], []).append(f["id"])
+log = subprocess.run("git -C /repo log --reverse --format='%h %s' 6a5c986..HEAD", shell=True, capture_output=True, text=True).stdout.splitlines()
+lines = []
+for i, l in enumerate(log, 1):
+    h, subj = l.split(" ", 1)
+    ids = ", ".join(sorted(bycommit.get(h[:7], [])))
+    lines.append("%d. `%s` %s%s" % (i, h, subj[len("fix: "):] if subj.startswith("fix: ") else subj, (" — regression entries: " + ids) if ids else ""))
+s = re.sub(r"<!-- FIXLIST:BEGIN -->.*?<!-- FIXLIST:END -->", "<!-- FIXLIST:BEGIN -->\n" + "\n".join(lines) + "\n<!-- FIXLIST:END -->", s, flags=re.S)
+fl = []
+for f in sorted(kf, key=lambda f: (f["property"], f["id"])):
+    if f.get("kind") == "finding":
+        fl.append("* **%s** (%s) — %s *Trigger:* %s" % (f["id"], f["property"], f["text"].rstrip(". ") + ".", f["trigger"].rstrip(". ") + "."))
+s = re.sub(r"<!-- FINDINGS:BEGIN -->.*?<!-- FINDINGS:END -->", "<!-- FINDINGS:BEGIN -->\n" + "\n".join(fl) + "\n<!-- FINDINGS:END -->", s, flags=re.S)
 open(p, "w").write(s)
 print("DESIGN.md seed table refreshed")
